@@ -198,7 +198,10 @@ func (ab *cmdsPair) Equal(ai, bi int) bool {
 // or return name of new command, if it replaces old command.
 func (s *State) diffCmds(al, bl []*cmd, key keyFunc) string {
 	// Command on device was already equalized with other command from Netspoc.
-	if len(al) > 0 && al[0].needed {
+	// This only applies to named commands. In a list of unnamed anchor
+	// commands the first one may be marked as needed because it belongs
+	// to an unmanaged interface.
+	if len(al) > 0 && al[0].needed && al[0].name != "" {
 		if len(bl) > 0 {
 			s.addCmds(bl)
 			return bl[0].name
